@@ -63,14 +63,18 @@ func (s *Service) startMetricsServer() {
 	s.Logf("Metrics endpoint listening on %s://%s%s", s.cfg.scheme, s.cfg.metricsNetAddr, MetricsPattern)
 
 	go func() {
+		// The goroutine may run after the server has been stopped (and
+		// s.m reset), or even after the service has been started again.
 		var err error
 		if s.cfg.TLS {
-			err = s.m.ServeTLS(hln, s.cfg.TLSCert, s.cfg.TLSKey)
+			err = metricsServer.ServeTLS(hln, s.cfg.TLSCert, s.cfg.TLSKey)
 		} else {
-			err = s.m.Serve(hln)
+			err = metricsServer.Serve(hln)
 		}
 
-		if err != nil {
+		// Shutdown makes Serve return http.ErrServerClosed. That is the end
+		// of a stop already in progress, not a cause to stop.
+		if err != nil && err != http.ErrServerClosed {
 			s.Stop(err)
 		}
 	}()
